@@ -22,13 +22,14 @@
       DFS of schemahcl's evalReferences, the bucket effect of QualifyObjects);
     * the models of State.EvalOptions, Resource.as and registry.lookup follow the tree WITH the
       three fixes notes/fixes/C20-hcl-*.diff (before them each had a _refuted/_except pair);
-    * [C20_decl_order_partial] covers DetachCycles only, under the premise that both orders agree
-      on cyclicity; that SortChanges emits a permutation respecting dependsOn is C04's theorem, and
+    * [C20_decl_order_partial] covers the DetachCycles stage only (no premise: sortMap's cycle
+      detection is proved order-independent); that SortChanges emits a permutation respecting
+      dependsOn is C04's theorem, and
       "the resulting schema is the same" is checked on the real SQLite engine by the harness. *)
 From Coq Require Import List Bool Arith NArith Permutation String.
 From Coq Require Sorting.Sorted.
 From Atlas Require Import Base.Bytes Plan.SortModel Dir.DirModel.
-From Atlas Require Import Det.Census Det.OrderModel Det.OrderIndep Det.CensusCovered gen.Gen_MapRanges.
+From Atlas Require Import Det.Census Det.OrderModel Det.OrderIndep Det.SortMapCycle Det.CensusCovered gen.Gen_MapRanges.
 Import ListNotations.
 
 (** * Census *)
@@ -350,19 +351,34 @@ Proof. vm_compute. split; reflexivity. Qed.
 
 (** * Declaration order *)
 
+(* sortMap's DFS: never out of fuel, and whether it reports a cycle depends only on the SET of
+   foreign-key edges, which is the same for every order of the change set *)
+Theorem C20_decl_order_cycle_detection : forall cs cs' : list change,
+  Permutation cs cs' ->
+  sortMap cs <> SMOut /\ (sortMap cs = SMCycle <-> sortMap cs' = SMCycle)
+  /\ (sortMap cs = SMCycle <-> exists a, Relations.clos_trans nat (edge (dependencies cs)) a a).
+Proof.
+  exact (fun cs cs' P => conj (sortMap_never_out cs) (conj (sortMap_cycle_perm cs cs' P) (sortMap_cycle_iff cs))).
+Qed.
+Print Assumptions C20_decl_order_cycle_detection.
+Example C20_decl_order_cycle_ex :
+  let t n := mkT n n in
+  let a := AddTable (t 1) [mkFK 0 (t 1) (t 2)] in
+  let b := AddTable (t 2) [mkFK 1 (t 2) (t 1)] in
+  sortMap [a; b] = SMCycle /\ sortMap [b; a] = SMCycle /\ sortMap [a; AddTable (t 2) []] = SMOk [2; 1].
+Proof. vm_compute. repeat split; reflexivity. Qed.
+
 (* PARTIAL.  Full statement: for every permutation cs' of the change set cs (= the tables declared
    in another order), plan cs' is a permutation of plan cs in which every pair related by
    dependsOn keeps its relative order, and replaying both on the engine gives the same schema.
-   Proved: the DetachCycles stage maps a permuted change set to a permuted result -- the same
-   changes, none lost, none altered -- provided both orders agree on whether the FK graph is cyclic.
-   Missing: that premise (order-independence of sortMap's cycle detection), and the SortChanges
-   stage (C04: a permutation that respects dependsOn).  The harness checks the full statement on
-   the real planners and the real SQLite engine. *)
-Theorem C20_decl_order_partial : forall (cs cs' p p' : list change),
+   Proved (no premise): the DetachCycles stage never runs out of fuel and maps a permuted change
+   set to a permuted result -- the same changes, none lost, none altered.
+   Missing: the SortChanges stage (C04: a permutation that respects dependsOn).  The harness checks
+   the full statement on the real planners and the real SQLite engine. *)
+Theorem C20_decl_order_partial : forall cs cs' : list change,
   Permutation cs cs' ->
-  (sortMap cs = SMCycle <-> sortMap cs' = SMCycle) ->
-  DetachCycles cs = DCOk p -> DetachCycles cs' = DCOk p' -> Permutation p p'.
-Proof. exact DetachCycles_decl_order. Qed.
+  exists p p', DetachCycles cs = DCOk p /\ DetachCycles cs' = DCOk p' /\ Permutation p p'.
+Proof. exact DetachCycles_decl_order_full. Qed.
 Print Assumptions C20_decl_order_partial.
 Example C20_decl_order_ex :
   let t n := mkT n n in
